@@ -14,28 +14,43 @@ func init() { register("C04", c04) }
 // residueReach: for each residue r of (value & 3), force the branches whose condition is evaluable under
 // atom(v)=r and report whether target stays reachable.
 func residueReach(fn *ssa.Function, isAtom func(ssa.Value) bool, target ssa.Instruction) (map[int64]bool, bool) {
-	out := map[int64]bool{}
-	used := false
+	any, _, used := residueReachSigned(fn, isAtom, target)
+	return any, used
+}
+
+// residueReachSigned evaluates the function's control skeleton for msg_ids of every residue class of the two low
+// bits, positive, small negative and with only the top bit set (a msg_id of 2038 and later is negative as int64):
+// any[r]: the target is reachable for some id of class r; all[r]: for every id of class r.
+func residueReachSigned(fn *ssa.Function, isAtom func(ssa.Value) bool, target ssa.Instruction) (any, all map[int64]bool, used bool) {
+	any, all = map[int64]bool{}, map[int64]bool{}
 	for r := int64(0); r < 4; r++ {
-		reach := an.ReachWith(fn, nil, func(i *ssa.If) (int, bool) {
-			v, ok := an.EvalCond(i.Cond, func(x ssa.Value) (int64, bool) {
-				if isAtom(x) {
-					return r, true
+		all[r] = true
+		for _, id := range []int64{r, r + 4, r - 4, r - 1<<32, -1 << 63 + r, 1<<62 + r} {
+			id := id
+			reach := an.ReachWith(fn, nil, func(i *ssa.If) (int, bool) {
+				v, ok := an.EvalCond(i.Cond, func(x ssa.Value) (int64, bool) {
+					if isAtom(x) {
+						return id, true
+					}
+					return 0, false
+				})
+				if !ok {
+					return 0, false
 				}
-				return 0, false
+				used = true
+				if v {
+					return 0, true
+				}
+				return 1, true
 			})
-			if !ok {
-				return 0, false
+			if reach[target.Block()] {
+				any[r] = true
+			} else {
+				all[r] = false
 			}
-			used = true
-			if v {
-				return 0, true
-			}
-			return 1, true
-		})
-		out[r] = reach[target.Block()]
+		}
 	}
-	return out, used
+	return
 }
 
 func c04(c *Ctx) {
